@@ -155,7 +155,7 @@ def _objarr(x, shape=None):
 
 
 def _lift_elem(v):
-    if isinstance(v, R | B | str):
+    if isinstance(v, R | B | str) or hasattr(v, '__symscalar__'):
         return v
     if isinstance(v, bool | np.bool_):
         return C.B.const(bool(v))
@@ -667,7 +667,7 @@ def _to_array(values, ndim, dt):
         if not isinstance(arr, np.ndarray):
             arr = _objarr(arr, ())
         return arr.astype(object), inferred
-    if isinstance(values, R | B | int | float | Fraction | bool | str | np.generic):
+    if isinstance(values, R | B | int | float | Fraction | bool | str | np.generic) or hasattr(values, '__symscalar__'):
         if inferred is None:
             if isinstance(values, B | bool | np.bool_):
                 inferred = DType.bool
